@@ -210,7 +210,7 @@ pub fn dispatch(st: &mut State, fam: &str, rest: &str) -> Option<String> {
 				for b in br.iter_blocks() {
 					let im = b.image(); let w = b.words();
 					blocks.push(format!("{}@{}+{}/{}", im.VirtualAddress, g.rf(im as *const _ as *const u8, 8), im.SizeOfBlock, g.rf(w.as_ptr() as *const u8, w.len() * 2)));
-					if blocks.len() > 200000 { return Some("diverge".to_string()); }
+					if blocks.len() > br.image().len() / 8 { return Some(format!("diverge relocs: {} blocks from a directory of {} bytes, only {} block headers fit", blocks.len(), br.image().len(), br.image().len() / 8)); }
 				}
 				br.for_each(|rva, ty| flat.push(format!("{}:{}", rva, ty)));
 				format!("ok image={} blocks=[{}] flat=[{}]", g.rf(br.image().as_ptr(), br.image().len()), blocks.join(","), flat.join(","))
